@@ -313,6 +313,18 @@ func (w *World) ApplyTask(ev string) (bool, error) {
 			return true, fmt.Errorf("re-import of the removed wallet's mnemonic failed: %v", err)
 		}
 		return true, nil
+	case "n.w":
+		// CreateWallet of one more wallet ("D"): an API operation that writes several records
+		if w.Wallets["D"] != nil {
+			return false, nil
+		}
+		id, mn, _, err := w.I.W.CreateWallet("privpassD4", "D", 128)
+		if err != nil {
+			return true, err
+		}
+		w.Wallets["D"] = &Wallet{Role: "D", ID: id, Pass: "privpassD4", Mnemonic: mn}
+		_, err = w.I.W.UseWallet(w.Wallets["A"].ID)
+		return true, err
 	case "n.a":
 		// NewAddress for wallet A (C12's operation, here as a target of storage faults)
 		if _, err := w.I.W.UseWallet(w.Wallets["A"].ID); err != nil {
